@@ -1148,8 +1148,14 @@ class World:
         self.loop.run_ready()
         return t
 
-    def app_reconnect(self):
+    def app_reconnect(self, steps=None):
+        """steps = None: the loop runs until nothing is ready (the reconnect proceeds as far as it can); steps = k: only k callbacks
+        run, so that what the application does next lands inside the reconnect"""
         self.rec.log('c', 'app_reconnect')
         t = self.loop.create_task(self.eps['c'].reconnect())
-        self.loop.run_ready()
+        if steps is None:
+            self.loop.run_ready()
+        else:
+            for _ in range(steps):
+                self.loop._one()
         return t
